@@ -262,4 +262,128 @@ theorem oblRel_next (cfg : Cfg) (s : LossSt) (o : Obs) (pc : UPc) (k : Nat) (hk 
     have : k ≠ u := by intro hc; apply hk; simp [obsUpd, hc]
     simpa [obligNext, firmNext, set_apply, this] using h
 
+theorem lossOk_of_notUpd (s : LossSt) (o : Obs) (h : obsUpd o = none) : lossOk s o = true := by
+  cases o <;> simp_all [lossOk, obsUpd]
+
+/-! ## the invariant -/
+
+structure LossInv (cfg : Cfg) (σ : State) : Prop where
+  acc : (lossMon cfg).acceptsFrom (lossMon cfg).init σ.trace = true
+  /-- what is firmly in force is in the table -/
+  tbl : ∀ c s, s ∈ (lossAfter cfg σ.trace).firm c → tableHas σ c s = true
+  /-- so is what a running `activate` has registered -/
+  reg : ∀ c s, registered (σ.hpc c) = some s → tableHas σ c s = true
+  /-- between the marker of a request and its table change nothing it ends is firm -/
+  pend : ∀ c r, closing (σ.hpc c) = some r → ∀ a ∈ (lossAfter cfg σ.trace).firm c, ends r a = false
+  obl : ∀ k, oblRel cfg (lossAfter cfg σ.trace).firm (σ.upc k) ((lossAfter cfg σ.trace).oblig k)
+
+theorem lossInv_init (cfg : Cfg) (hs us cache) : LossInv cfg (init hs us cache) := by
+  constructor <;> intros <;> simp_all [init, Mon.acceptsFrom]
+
+/-- a request thread moves without event and without table change -/
+theorem lossInv_quiet (cfg : Cfg) (σ σ' : State) (c : Conn) (pc : HPc) (hI : LossInv cfg σ)
+    (htr : σ'.trace = σ.trace) (hupc : σ'.upc = σ.upc) (hpc : σ'.hpc = set σ.hpc c pc)
+    (htb : ∀ c' a, tableHas σ' c' a = tableHas σ c' a)
+    (hreg : ∀ s, registered pc = some s → registered (σ.hpc c) = some s)
+    (hcl : ∀ r, closing pc = some r → closing (σ.hpc c) = some r) : LossInv cfg σ' := by
+  constructor
+  · rw [htr]; exact hI.acc
+  · intro c' s h; rw [htr] at h; rw [htb]; exact hI.tbl c' s h
+  · intro c' s h
+    rw [htb]
+    rw [hpc, set_apply] at h
+    split at h
+    · rename_i hc; subst hc; exact hI.reg c' s (hreg s h)
+    · exact hI.reg c' s h
+  · intro c' r h
+    rw [htr]
+    rw [hpc, set_apply] at h
+    split at h
+    · rename_i hc; subst hc; exact hI.pend c' r (hcl r h)
+    · exact hI.pend c' r h
+  · intro k; rw [htr, hupc]; exact hI.obl k
+
+/-- the table change of a request -/
+theorem lossInv_write (cfg : Cfg) (σ σ' : State) (c : Conn) (r : Req) (pc : HPc) (hI : LossInv cfg σ)
+    (htr : σ'.trace = σ.trace) (hupc : σ'.upc = σ.upc) (hpc : σ'.hpc = set σ.hpc c pc)
+    (hcl : closing (σ.hpc c) = some r)
+    (htb : ∀ c' a, tableHas σ' c' a = tableHas (tableWrite σ c r) c' a)
+    (hreg : registered pc = actScope r) (hcl' : closing pc = none) : LossInv cfg σ' := by
+  constructor
+  · rw [htr]; exact hI.acc
+  · intro c' s h
+    rw [htr] at h
+    rw [htb]
+    by_cases hc : c' = c
+    · subst hc
+      exact tableHas_tableWrite_keep σ c' r s (hI.pend c' r hcl s h) (hI.tbl c' s h)
+    · rw [tableHas_tableWrite_other σ c c' r s hc]; exact hI.tbl c' s h
+  · intro c' s h
+    rw [htb]
+    rw [hpc, set_apply] at h
+    split at h
+    · rename_i hc; subst hc
+      rw [hreg] at h
+      exact tableHas_tableWrite_reg σ c' r s h
+    · rename_i hc
+      rw [tableHas_tableWrite_other σ c c' r s hc]; exact hI.reg c' s h
+  · intro c' r' h
+    rw [htr]
+    rw [hpc, set_apply] at h
+    split at h
+    · rw [hcl'] at h; cases h
+    · exact hI.pend c' r' h
+  · intro k; rw [htr, hupc]; exact hI.obl k
+
+/-- a request thread appends an event -/
+theorem lossInv_event (cfg : Cfg) (σ σ' : State) (c : Conn) (o : Obs) (pc : HPc) (hI : LossInv cfg σ)
+    (htr : σ'.trace = σ.trace ++ [o]) (hupc : σ'.upc = σ.upc) (hpc : σ'.hpc = set σ.hpc c pc)
+    (hob : obsUpd o = none) (hoc : ∀ c', c' ≠ c → obsConn o ≠ some c')
+    (htb : ∀ c' a, tableHas σ' c' a = tableHas σ c' a)
+    (hrep : ∀ s, o = .reply c (.activate s) true → registered (σ.hpc c) = some s)
+    (hreg : registered pc = none)
+    (hcl : ∀ r, closing pc = some r → o = .reqStart c r) : LossInv cfg σ' := by
+  constructor
+  · rw [htr, lossAcc_append, hI.acc, lossOk_of_notUpd _ _ hob]; rfl
+  · intro c' s h
+    rw [htr, lossAfter_append, lossNext_firm] at h
+    rw [htb]
+    rcases mem_firmNext _ _ _ _ h with h | h
+    · exact hI.tbl c' s h
+    · by_cases hc : c' = c
+      · subst hc; exact hI.reg c' s (hrep s h)
+      · exact absurd (by rw [h]; rfl) (hoc c' hc)
+  · intro c' s h
+    rw [htb]
+    rw [hpc, set_apply] at h
+    split at h
+    · rw [hreg] at h; cases h
+    · exact hI.reg c' s h
+  · intro c' r h a ha
+    rw [htr, lossAfter_append, lossNext_firm] at ha
+    rw [hpc, set_apply] at h
+    split at h
+    · rename_i hc; subst hc
+      rw [hcl r h] at ha
+      exact mem_firmNext_reqStart _ _ _ _ ha
+    · rename_i hc
+      rw [firmNext_other _ _ _ (hoc c' hc)] at ha
+      exact hI.pend c' r h a ha
+  · intro k
+    rw [htr, lossAfter_append, hupc]
+    exact oblRel_next cfg _ o _ k (by rw [hob]; simp) (hI.obl k)
+
+theorem lossInv_stepH (cfg : Cfg) (σ σ' : State) (c : Conn) (hI : LossInv cfg σ)
+    (hs : stepH cfg σ c = some σ') : LossInv cfg σ' := by
+  unfold stepH at hs
+  step_cases hs
+  all_goals first
+    | exact lossInv_quiet cfg σ _ c _ hI rfl rfl rfl (by intro c' a; cases a <;> rfl) (by simp [*]) (by simp [*])
+    | exact lossInv_event cfg σ _ c _ _ hI rfl rfl rfl rfl (by intro c' hc; simp [obsConn]; exact fun h => hc h.symm)
+        (by intro c' a; cases a <;> rfl) (by simp [*]) (by simp [*]) (by simp [*])
+    | exact lossInv_write cfg σ _ c _ _ hI (by simp) (by simp) rfl (by simp [*]; rfl) (by intro c' a; cases a <;> rfl) (by simp) (by simp)
+    | skip
+  all_goals trace_state
+  all_goals sorry
+
 end Frappy.Activate
